@@ -255,6 +255,36 @@ def run_c12(pid, spec, res, st, tier, seed, helpers):
                     fails.append((dc, {'kind': 'cli-args-dash', 'detail': 'arguments %r with standard input %r: exit %d, stdout %r, expected %r, stderr %r' % (
                         ws_, inp, rc, out.decode('utf-8', 'replace')[:200], want.decode()[:200], err.decode('utf-8', 'replace')[:200]), 'args': list(ws_)}))
                     break
+        # carriage returns that are NOT part of a CRLF line end belong to the test case (seed C12h: lines split at LF only and
+        # one trailing CR stripped from every test case on every channel): arguments ending in CR, a last line ending in a
+        # bare CR without LF, CR CR LF, a lone CR
+        def rust_lines(txt):
+            parts = txt.split('\n')
+            terminated = [True] * (len(parts) - 1) + [False]
+            if parts and parts[-1] == '':
+                parts.pop(); terminated.pop()
+            return [p_[:-1] if (t_ and p_.endswith('\r')) else p_ for p_, t_ in zip(parts, terminated)]
+        cr_args = [["key=value\r", "key=other"], ["a\r"], ["\r"], ["a\r\n"], ["a\rb", "c\r"], ["x\r\r"]]
+        cr_files = ['ab\ncd\r', 'ab\r\ncd\r', 'a\r\r\n', '\r', 'x\r\ny\r\r\nz\r', 'p\rq\n', 'one\r\ntwo\r\n\r']
+        cr_cases = [('args', ws_, None) for ws_ in cr_args] + [('content', rust_lines(t_), t_) for t_ in cr_files]
+        ccs = [{'id': k, 'tcs': [[ord(ch) for ch in w] for w in ws_], 'f': '', 'mr': 1, 'ms': 1} for k, (_, ws_, _) in enumerate(cr_cases)]
+        cimpl = runner.run_impl(ccs)
+        for cc, (kind_, ws_, txt) in zip(ccs, cr_cases):
+            r = cimpl.get(cc['id'])
+            if r is None or r.get('out') is None:
+                continue
+            want = (''.join(map(chr, r['out'])) + '\n').encode('utf-8')
+            if kind_ == 'args':
+                trials = [('args', list(ws_), None)]
+            else:
+                fp = os.path.join(tmpd, 'cr_%d.txt' % cc['id']); open(fp, 'wb').write(txt.encode('utf-8'))
+                trials = [('file', ['-f', fp], None), ('stdin', ['-'], txt.encode('utf-8')), ('file-from-stdin', ['-f', '-'], fp.encode())]
+            for name, args, inp in trials:
+                rc, out, err = run_cli(args, inp); runs += 1
+                if rc != 0 or out != want:
+                    fails.append((cc, {'kind': 'cli-cr-' + name, 'detail': 'carriage return outside a CRLF line end, channel %s, input %r: exit %d, stdout %r, expected %r (test cases %r), stderr %r' % (
+                        name, txt if txt is not None else ws_, rc, out.decode('utf-8', 'replace')[:200], want.decode()[:200], ws_, err.decode('utf-8', 'replace')[:200]), 'args': args}))
+                    break
         # files that start with U+FEFF: the byte-order mark is not stripped by str::lines, nor by from() (seed C12f)
         for k, content in enumerate(['\ufeffabc\nxyz\n', '\ufeff', 'a\n\ufeffb\n', '\ufeff\r\nq']):
             open(os.path.join(tmpd, 'in_!bom%d.txt' % k), 'wb').write(content.encode('utf-8'))
